@@ -322,6 +322,9 @@ func (ps *sparser) typ() *SType {
 	if t.s == "seq" {
 		return &SType{Kind: "seq"}
 	}
+	if t.s == "chan" {
+		return &SType{Kind: "chan", Elem: ps.typ()}
+	}
 	st := &SType{Kind: "name", Name: t.s}
 	// package path: a/b/c.T
 	for ps.isOp("/") {
